@@ -21,6 +21,9 @@ def evStr : Ev → String
   | .anext .fin => "anext=false"
   | .anext .nomore => "anext=nomore"
   | .anext _ => "anext=true"
+  | .kawait .fin => "kawait=false"
+  | .kawait .nomore => "kawait=nomore"
+  | .kawait _ => "kawait=true"
   | .sub .fin => "sub=false"
   | .sub i => s!"sub={itemStr i}"
   | .fawait i => s!"fawait={itemStr i}"
@@ -48,6 +51,7 @@ structure D where
   out : Array String := #[]
   chainLeft : Nat := 0
   chainArg : Nat := 0
+  kValid : Bool := false     -- no other access has started since `keep a` stored its argument reference (harness bookkeeping)
   refMode : Bool := false    -- generator<T&>: the future of a call refers into the frame
   futFresh : Bool := false   -- no access has resumed the body since the call that produced the current future
 
@@ -108,6 +112,8 @@ def resStr : Res → String
   | .na => " n/a"
   | .noit => " noit"
   | .nofut => " nofut"
+  | .nokept => " nokept"
+  | .stale => " stale"
   | .started => " started"
   | .next b => " " ++ tf b
   | .nomore => " nomore"
@@ -226,6 +232,10 @@ def doLine (d : D) (ws : List String) : D × String :=
       else
         let d0 : D := { d with chainLeft := argOf ws, chainArg := a }
         let (d', r) := prim d0 (.sub a); (d', "subr" ++ resStr r)
+  | "keep" :: _ => let (d', r) := prim d (.keep (argOf ws)); (d', "keep" ++ resStr r)
+  | ["ktest"] => let (d', r) := syncOp d .ktest; (d', "ktest" ++ resStr r)
+  | ["knot"] => let (d', r) := syncOp d .ktest; (d', "knot" ++ resStr r)       -- `!n`, negation undone
+  | ["kawait"] => let (d', r) := prim d .kawait; (d', "kawait" ++ resStr r)
   | "call" :: _ => let (d', r) := prim d (.call (argOf ws)); (d', "call" ++ resStr r)
   | ["fwait"] => let (d', r) := fwaitOp d (fuelOf d); (d', "fwait" ++ resStr r)
   | ["fget"] => let (d', r) := prim d .futGet; (d', "fget" ++ resStr r)
@@ -270,7 +280,14 @@ reference is over): `fwait` / `fget` / `fawait` then answer `stale`. Pure bookke
 def doLine' (noIter : Bool) (d : D) (ws : List String) : D × String :=
   match ws with
   | w :: _ =>
-      let d := if accessOps.contains w && d.s.alive && d.s.caller == .none then { d with futFresh := false } else d
+      -- a consultation of the kept object is an access unless the object has answered true before (co_await always is one)
+      let kAccess := d.s.kept != none && ((w == "kawait") || ((w == "ktest" || w == "knot") && !d.s.kstate))
+      let isAccess := (accessOps.contains w && !(iterOps.contains w && (noIter || d.s.mode))) || kAccess
+      let passes := isAccess && d.s.alive && d.s.caller == .none
+      -- the argument reference of a kept object created for a generator with argument type is over once another access started
+      if passes && kAccess && d.s.mode && !d.kValid then (d, w ++ " stale")
+      else
+      let d := if passes then { d with futFresh := false, kValid := false } else d
       if d.refMode && !d.futFresh && ["fwait", "fget", "fawait"].contains w && d.s.fut != .none then (d, w ++ " stale")
       else
         let (d1, line) :=
@@ -280,7 +297,8 @@ def doLine' (noIter : Bool) (d : D) (ws : List String) : D × String :=
           else doLine d ws
         let d2 := if w == "call" && (line == "call pending" || line.startsWith "call ready") then { d1 with futFresh := true } else d1
         let d3 := if w == "destroy" && line.startsWith "destroy" && !d2.s.alive then { d2 with futFresh := false } else d2
-        (d3, line)
+        let d4 := if w == "keep" && line == "keep" then { d3 with kValid := true } else d3
+        (d4, line)
   | [] => doLine d ws
 
 partial def loop (lines : Array String) (i : Nat) (mode : Bool) (st : Option D) (noIter : Bool := false)
